@@ -24,6 +24,9 @@ type Delivered struct {
 	Resp     proxy.CommitResponse
 	Step     int
 	Epoch    int // increments at every Restore (fast-forward) of this application
+	// LastRoundAtCommit: the highest round the node had created when it handed
+	// this block over (-1 if unknown); filled through App.LastRound
+	LastRoundAtCommit int
 }
 
 // App is the monitored, deterministic application attached to every simulated
@@ -49,6 +52,8 @@ type App struct {
 	// FailCommit, if >0, makes the next FailCommit commits return an error.
 	FailCommit int
 	States     []state.State
+	// LastRound, if set, reads the node's highest created round (diagnostics)
+	LastRound func() int
 }
 
 func NewApp(name string) *App {
@@ -113,7 +118,10 @@ func (a *App) CommitHandler(block hg.Block) (proxy.CommitResponse, error) {
 	// (including nil vs empty), because block signatures cover its encoding
 	resp := proxy.CommitResponse{StateHash: append([]byte{}, a.State...)}
 	resp.InternalTransactionReceipts = append(resp.InternalTransactionReceipts, receipts...)
-	d := &Delivered{Index: block.Index(), Body: body, BodyJSON: jb, Resp: resp, Step: a.CurrentStep, Epoch: a.Epoch}
+	d := &Delivered{Index: block.Index(), Body: body, BodyJSON: jb, Resp: resp, Step: a.CurrentStep, Epoch: a.Epoch, LastRoundAtCommit: -1}
+	if a.LastRound != nil {
+		d.LastRoundAtCommit = a.LastRound()
+	}
 	a.Delivered = append(a.Delivered, d)
 	a.Snapshots[block.Index()] = append([]byte{}, a.State...)
 	if a.Log != nil {
